@@ -51,8 +51,10 @@ def gen_hooks_c10():
     tb = re.sub(r"verifInstalled\(\w+(\.\w+)*,", "", tb).replace(")", "")
     if ta != tb:
         raise RuntimeError("instrumented utils.go differs from the original by more than the inserted calls")
-    os.makedirs(os.path.join(C.VERIF, "evidence"), exist_ok=True)
-    with open(os.path.join(C.VERIF, "evidence", "C10-hooks.diff"), "w") as f:
+    # like evidence/C10.json: runs against a scratch copy do not overwrite the evidence of /repo
+    edir = os.path.join(C.VERIF, "evidence") if os.path.realpath(C.REPO) == "/repo" else os.path.join(C.BUILD, "evidence-scratch")
+    os.makedirs(edir, exist_ok=True)
+    with open(os.path.join(edir, "C10-hooks.diff"), "w") as f:
         f.write("\n".join(diff) + "\n")
     # register (replace any earlier entry for this file, whatever tree it pointed into)
     extra = os.path.join(C.BUILD, "overlay-extra.json")
@@ -79,13 +81,15 @@ def gen_hooks_c10():
 
 CFG = {
     "props_module": "Hy.Props.C10",
-    "gen_modules": ["core"],
-    "gen_hooks": [gen_hooks_c10],
+    "gen_modules": ["core", "app"],
+    # before the harness build: the core binary itself contains the handshake component, and
+    # must be compiled from the freshly instrumented copy of the CURRENT utils.go
+    "pre_build_hooks": [gen_hooks_c10],
     "level": "proof",
     "streams": [
         {"mod": "core", "component": "ratecodec", "driver": "rate", "n": {"quick": 20000, "thorough": 400000}},
-        {"kind": "gotest", "mod": "core", "pkg": "./internal/integration_tests", "run": "^TestVerifC10$", "component": "ratehs",
-         "driver": "rate", "n": {"quick": 180, "thorough": 6200}, "timeout": 1500},
+        {"mod": "core", "component": "ratehs", "driver": "rate", "n": {"quick": 180, "thorough": 6200}, "timeout": 1500},
+        {"mod": "app", "component": "ratecfg", "driver": "rate", "n": {"quick": 15000, "thorough": 400000}},
     ],
     "rule": "ratecodec: every boundary uint64 and ~130 junk header values (missing, empty, signed, blank-padded, hex/exp/underscore forms, "
             "non-ASCII digits, 'auto' near-misses, values around 2^64 and around strconv's cutoff, 200-digit strings, multi-valued) through "
@@ -93,7 +97,11 @@ CFG = {
             "visit every (declared, own limit, ignore) triple of each side's rule at least twice, thorough: the full grid "
             "{0,65536,65537,10^6,2^63,2^64-1}^4 x ignore x {bbr,reno} = 5184 plus off-grid extras; raw HTTP/3 clients with hand-crafted "
             "Hysteria-CC-RX against real servers and a bare HTTP/3 server answering real clients; distinct = distinct op line; "
-            "non-trivial = the handshake completed and a controller decision was observed (codec: value parsed non-zero/auto or formatted)",
+            "non-trivial = the handshake completed and a controller decision was observed (codec: value parsed non-zero/auto or formatted); "
+            "ratecfg: the REAL utils.StringToBps/ConvBandwidth, app/cmd fillBandwidthConfig (client and server) and core fill/verifyAndFill "
+            "on every (number, unit) pair over 0, the 8-bit rounding edge, the 65536 floor in every unit, each unit's overflow edge "
+            "floor((2^64-1)/unit)+-1, 2^64+-1 and products = 0 mod 2^64; every unit spelling/case, ~35 near-miss units, ASCII and Unicode "
+            "blanks, Kelvin sign, invalid UTF-8, garbage; config pairs absent/blank/invalid/below-at-above the floor; then random ones",
     "trusted_base": [
         "the model Hy.Model.Rate is tied to core/internal/protocol/http.go by the differential stream `ratecodec` and to "
         "core/server/server.go + core/client/client.go + core/internal/congestion/utils.go by the stream `ratehs` (real handshakes: "
@@ -106,6 +114,14 @@ CFG = {
         "quic-go http3 delivers header field values to the handler unchanged or as reported (the value actually delivered is "
         "observed through a second header and is what the model is given)",
         "strconv.ParseUint/FormatUint are modelled (parseGo/decDigits) and compared directly (op `pu`)",
+        "configuration layer: Hy.Model.RateConfig is tied to app/internal/utils/bpsconv.go, app/cmd/{client,server}.go fillBandwidthConfig and "
+        "core/{server,client}/config.go by the stream `ratecfg` (in-package shims harness/app/cmd, harness/core/{server,client}); the unit "
+        "factors and the two Unicode facts used (IsSpace runes >= 0x80, runes whose ToLower is ASCII) are regenerated from the compiled "
+        "packages into Hy.Gen.App and proved equal to the model's tables; utf8 decoding, strings.TrimSpace/ToLower are modelled",
+        "the YAML/viper decoding of `bandwidth.up/down` into Go strings is not modelled (the fields are strings; ConvBandwidth's int arm is "
+        "unreachable from a file)",
+        "main model = bpsconv.go with fixes/D15.patch applied (overflowing product refused); the pinned wrap-around is kept as "
+        "stringToBpsPinned with a decided counterexample",
     ],
     "assumptions": [
         "rates are uint64 (theorems carry n <= 2^64-1 where the width matters)",
@@ -122,7 +138,11 @@ MANIFEST = {
             "caps under ANY header bytes, and agreement of both sides with PROTOCOL.md through the wire codec. Tied to the current source by "
             "a 20k-case codec differential and by real loopback handshakes (sampled grid quick / full 5184-point grid thorough, raw HTTP/3 "
             "peers with hand-crafted headers) observing authenticator tx, Connect(tx), HandshakeInfo.Tx and the controller actually installed "
-            "on each quic.Conn via an instrumented copy of congestion/utils.go regenerated from the working tree on every run.",
+            "on each quic.Conn via an instrumented copy of congestion/utils.go regenerated from the working tree on every run. "
+            "The limits themselves are traced back to the configuration files: stringToBps_spec (StringToBps accepts exactly "
+            "blanks* digits+ blanks* unit blanks*, value = digits x unit / 8 exactly, never a wrapped product — fixes/D15.patch), "
+            "config_to_limits (core limits = parsed strings; server refuses 0 < limit < 65536, client does not) and "
+            "configured_rate_never_exceeded (end to end), tied by a differential on the real StringToBps / fillBandwidthConfig / core fill.",
     "note": "Trusted: Lean kernel (+leanchecker), standard axioms at most; the Go harness, the go/ast rewriter and hydrv; quic-go http3 header "
             "transport; enforced rate := bps of the installed Brutal sender (pacing is C11). Bytes per wall-clock interval are NOT claimed. "
             "Residual risk: implementation differs from the model on a configuration/header the generators did not draw.",
